@@ -1,6 +1,7 @@
 from . import COMMON_TB
 
 CONFIG = dict(
+    also_release=True,
     harness="c17",
     suites=[
         dict(suffix="", comparisons=[
